@@ -1659,6 +1659,11 @@ def normalise_program(prog, *, inline: bool = True,
     quals = list(prog.functions)
     report["new_functions"] = sorted(q for q in quals if q not in keep)
     new_tables = _new_level_names(prog, keep)
+    # a literal that package code writes at run time is a cache, no constant
+    from .caches import table_writes
+    for q_, lit_ in list(new_tables.items()):
+        if lit_ is not None and table_writes(prog, q_):
+            new_tables[q_] = None
     report["new_names"] = sorted(q for q, lit in new_tables.items()
                                  if lit is None)
     literal_tables = {q: lit for q, lit in new_tables.items()
